@@ -1,0 +1,87 @@
+//go:build verif
+// +build verif
+
+package node
+
+// Run-time control of the verification hooks and a few read-only projections of a KVNode
+// for the verification harness (build tag `verif` only).
+
+// VerifArmCrash arms a crash at the k-th hit of hook `name` counted from now.
+func VerifArmCrash(name string, k int) {
+	s := verifS
+	s.mu.Lock()
+	if k <= 0 {
+		k = 1
+	}
+	s.crashName, s.crashAt = name, s.hits[name]+k
+	s.mu.Unlock()
+}
+
+// VerifArmHold blocks the goroutine that makes the k-th hit (from now) of hook `name`
+// until hook `rel` has been passed j more times (counted from now); rel == "" holds for ever.
+func VerifArmHold(name string, k int, rel string, j int) {
+	s := verifS
+	s.mu.Lock()
+	if k <= 0 {
+		k = 1
+	}
+	if j <= 0 {
+		j = 1
+	}
+	s.holdName, s.holdAt = name, s.hits[name]+k
+	s.holdRel, s.holdRelAt = rel, s.hits[rel]+j
+	s.mu.Unlock()
+}
+
+// VerifHits returns a copy of the per-hook hit counters.
+func VerifHits() map[string]int {
+	s := verifS
+	s.mu.Lock()
+	defer s.mu.Unlock()
+	m := make(map[string]int, len(s.hits))
+	for k, v := range s.hits {
+		m[k] = v
+	}
+	return m
+}
+
+// VerifNodeStatus is a projection of one replica for settle barriers.
+type VerifNodeStatus struct {
+	Ready          bool   `json:"ready"`
+	ReplayFinished bool   `json:"replay_finished"`
+	IsLead         bool   `json:"is_lead"`
+	Lead           uint64 `json:"lead"`
+	Term           uint64 `json:"term"`
+	Commit         uint64 `json:"commit"`
+	Applied        uint64 `json:"applied"`
+	LastIndex      uint64 `json:"last_index"`
+	LastSnapIndex  uint64 `json:"last_snap_index"`
+	Stopping       bool   `json:"stopping"`
+}
+
+func (nn *NamespaceNode) VerifStatus() VerifNodeStatus {
+	var st VerifNodeStatus
+	st.Ready = nn.IsReady()
+	nd := nn.Node
+	if nd == nil || nd.rn == nil {
+		return st
+	}
+	st.Stopping = nd.IsStopping()
+	if !st.Ready || st.Stopping || !nd.rn.isServerRunning() {
+		return st
+	}
+	st.ReplayFinished = nd.rn.IsReplayFinished()
+	st.IsLead = nd.rn.IsLead()
+	st.Lead = nd.rn.Lead()
+	rs := nd.GetRaftStatus()
+	st.Term = rs.Term
+	st.Commit = rs.Commit
+	st.Applied = nd.GetAppliedIndex()
+	st.LastSnapIndex = nd.GetLastSnapIndex()
+	if s := nd.rn.raftStorage; s != nil {
+		if li, err := s.LastIndex(); err == nil {
+			st.LastIndex = li
+		}
+	}
+	return st
+}
